@@ -26,6 +26,9 @@ def main():
     for e in req.get('earlier_installs', []):
         # an earlier fork at another byte that used the same aliases: the later install takes them over
         T.add_soft_fork(e['code'], e['name'], lambda tape, stack, cache: tape.read(1) and None, e.get('aliases', []))
+    for h in req.get('decompile_before_install', []):
+        try: P.decompile_script(bytes.fromhex(h))
+        except BaseException: pass
     if kind:
         def fork(tape, stack, cache):
             """reads the count as NOP does, removes that many items, may raise"""
@@ -37,7 +40,11 @@ def main():
                   'always_fail': False, 'never_fail': True, 'even_total': sum(map(len, items)) % 2 == 0}[kind]
             if not ok:
                 raise E.ScriptExecutionError('fork check failed')
-        T.add_soft_fork(req['code'], req['name'], fork, req.get('aliases', []))
+        try:
+            T.add_soft_fork(req['code'], req['name'], fork, req.get('aliases', []))
+        except BaseException as e:
+            print(json.dumps({'install_error': type(e).__name__ + ': ' + str(e)[:200]}))
+            return
     out = {'auth': [], 'compile': [], 'decompile': [], 'rejected': rejected}
     for scripts in req.get('auth', []):
         try:
